@@ -2,5 +2,5 @@
 import fa_run
 
 def main(tier):
-    return fa_run.check("C01", tier, new_bits=2, kf_bit=4, beyond_bit=1024, proof_files=["proofs/FaFacts.v", "proofs/FaMono.v", "proofs/C01Proofs.v", "proofs/C01Complete.v", "proofs/C01Calls.v", "proofs/TablesOk.v", "props/C01.v"],
+    return fa_run.check("C01", tier, new_bits=2, kf_bit=4, beyond_bit=1024, proof_files=["proofs/FaFacts.v", "proofs/FaMono.v", "proofs/C01Proofs.v", "proofs/C01Complete.v", "proofs/C01Calls.v", "proofs/C01Assign.v", "proofs/TablesOk.v", "props/C01.v"],
                         what="an access the body performs (outside every listed finding class, or beyond what the model predicts) is not in the function's IR", kf_prefix="KF_C01")
